@@ -443,7 +443,90 @@ def extra(rng, tier):
                                               "stored through %s is emitted on %s as a line containing CR/LF/NUL: %r"
                                               % (len(value), how, iface, bad[0][1][:80])})
     obs["wide_values_emitted"] = emitted
+    # cookies on the text responses under every body charset: the header block has its own encoding, the body
+    # charset (UTF-16, UTF-32, EBCDIC ...) must not reach a header line
+    import baize.asgi.responses as _ar
+    import baize.wsgi.responses as _wr
+    cs_runs = 0
+    for iface, mod in (("wsgi", _wr), ("asgi", _ar)):
+        for cname in ("PlainTextResponse", "HTMLResponse", "SendEventResponse"):
+            for charset in ("utf-8", "latin-1", "utf-16", "utf-32", "utf-16-le", "utf-32-be", "cp037", "utf-7", "ascii"):
+                for cn, cv in (("a", "b"), ("sid", "Ċ"), ("k", "中"), ("t", "x y")):
+                    label = "charset %s %s charset=%s cookie=%s=U+%04X" % (iface, cname, charset, cn, ord(cv[0]))
+                    try:
+                        cls = getattr(mod, cname)
+                        if cname == "SendEventResponse":
+                            if iface == "wsgi":
+                                resp = cls(iter(()), charset=charset)
+                            else:
+                                async def _none():
+                                    return
+                                    yield
+                                resp = cls(_none(), charset=charset)
+                        else:
+                            resp = cls("body", charset=charset)
+                        resp.set_cookie(cn, cv)
+                        hs = run_wsgi(resp) if iface == "wsgi" else run_asgi_full(resp)
+                    except (UnicodeEncodeError, LookupError):
+                        continue
+                    except Exception as exc:  # noqa
+                        violations.append({"line": label, "out": exc_name(exc),
+                                           "why": "emitting a response with a cookie raised %s" % exc_name(exc)})
+                        continue
+                    cs_runs += 1
+                    bad = [(k, v) for k, v in hs if has_ctl(k) or has_ctl(v)]
+                    if bad:
+                        violations.append({"line": label, "out": repr(bad[0])[:200],
+                                           "why": "%s(charset=%r) with cookie %s=%r emits on %s a header line containing "
+                                                  "CR/LF/NUL: %r" % (cname, charset, cn, cv, iface, bad[0][1][:80])})
+    obs["charset_cookie_responses_emitted"] = cs_runs
+    # redirect targets handed over as URL objects (the other accepted type), with line breaks / NUL in every component
+    from baize.datastructures import URL as _URL
+    red = 0
+    for text in ("/x\r\nSet-Cookie: a=b", "/a\nb", "/nul\0x", "http://h.example/p?q=1\r\nx: y", "/p#frag\rz",
+                 "http://h.example\r\n/p", "/ok path", "/caf\u00e9\n"):
+        for as_url in (True, False):
+            for iface in ("wsgi", "asgi"):
+                label = "redirect %s %s target=%s" % (iface, "URL-object" if as_url else "str",
+                                                      ",".join(str(ord(c)) for c in text))
+                try:
+                    target = _URL(text) if as_url else text
+                    resp = (WsgiRedirect if iface == "wsgi" else AsgiRedirect)(target)
+                    hs = run_wsgi(resp) if iface == "wsgi" else run_asgi(resp)
+                except (ValueError, UnicodeEncodeError):
+                    continue          # refused: nothing emitted
+                except Exception as exc:  # noqa
+                    violations.append({"line": label, "out": exc_name(exc), "why": "a redirect raised %s" % exc_name(exc)})
+                    continue
+                red += 1
+                bad = [(k, v) for k, v in hs if has_ctl(k) or has_ctl(v)]
+                if bad:
+                    violations.append({"line": label, "out": repr(bad[0])[:200],
+                                       "why": "RedirectResponse(%s%r%s) emits on %s a header line containing CR/LF/NUL: %r" % (
+                                           "URL(" if as_url else "", text, ")" if as_url else "", iface, bad[0][1][:80])})
+    obs["redirect_targets_emitted"] = red
     return {"violations": violations, "observations_outside_statement": obs}
+
+
+def run_asgi_full(resp):
+    """like run_asgi, on a real event loop (streaming responses create tasks)"""
+    import asyncio
+    msgs = []
+
+    async def send(m):
+        msgs.append(m)
+
+    async def receive():
+        return {"type": "http.disconnect"}
+
+    loop = asyncio.new_event_loop()
+    try:
+        loop.run_until_complete(asyncio.wait_for(resp({"type": "http", "method": "GET", "path": "/", "headers": []},
+                                                      receive, send), 10))
+    finally:
+        loop.close()
+    start = [m for m in msgs if m["type"] == "http.response.start"][0]
+    return [(k.decode("latin-1"), v.decode("latin-1")) for k, v in start["headers"]]
 
 
 # ---- generators ------------------------------------------------------------------------
